@@ -322,4 +322,7 @@ ArmAligned ==
 \* classifiers of the recorded findings (state constraints for the reduced-width runs)
 NoSizeWrap == (kind = "buf" /\ phase # "pick") => \A i \in DOMAIN cfg.pairs : cfg.pairs[i][1] + SH < M
 NoQueueWrap == (kind = "queue" /\ phase # "pick") => QH + cfg.cap * QE < M
+RECURSIVE SumPct(_, _)
+SumPct(ps, i) == IF i > Len(ps) THEN 0 ELSE ps[i][2] + SumPct(ps, i + 1)
+NoPercentWrap == (kind = "buf" /\ phase # "pick") => SumPct(cfg.pairs, 1) < M
 =============================================================================
